@@ -90,9 +90,11 @@ def sop? : Sexp → Option SOp
   | .list [.atom "rm", ca] => do some (.rm (← nat? ca))
   | .list [.atom "close"] => some .close
   | .list [.atom "reopen"] => some .reopen
+  | .list [.atom "reopenf", _, _] => some .reopenf
   | .list [.atom "rxix", ca] => (nat? ca).map .rxix
   | .list [.atom "closeix", ca] => (nat? ca).map .closeix
   | .list [.atom "closeall"] => some .closeall
+  | .list [.atom "wlopen"] => some .wlopen
   | _ => none
 
 def statusS : Status → Sexp
@@ -105,6 +107,22 @@ def insertBySid (x : Nat × Sexp) : List (Nat × Sexp) → List (Nat × Sexp)
 def remS (wh : String) (r : Rem) : Nat × Sexp :=
   (r.sid, .list [sym wh, ofBool r.c.cutoff, ofBool r.c.connected, ofBool r.aborted, ofBytes r.c.rxbs,
                  ofNat r.c.txbs.length, ofBytes r.c.kacc, ofBool (!r.csOpen)])
+
+def remSW (wh : String) (r : Rem) : Nat × Sexp :=
+  (r.sid, .list [sym wh, ofBool r.c.cutoff, ofBool r.c.connected, ofBool r.aborted, ofBytes r.c.rxbs,
+                 ofNat r.c.txbs.length, ofBytes r.c.kacc, ofBool (!r.csOpen), ofBytes r.c.wireTx, ofBytes r.c.wireRx])
+
+def snapshotW (s : Server) : Sexp :=
+  let ls := s.curListen.toList.map (fun i => (i, Sexp.list [sym "listen", ofBool false])) ++
+            s.deadListens.map (fun i => (i, Sexp.list [sym "listen", ofBool true]))
+  let rs := s.ixes.map (fun kv => remSW "ix" kv.2) ++ s.cxes.map (fun kv => remSW "cx" kv.2) ++ s.gone.map (remSW "gone")
+  .list (((ls ++ rs).foldr insertBySid []).map (·.2))
+
+def serverStepsW (s : Server) : List SOp → List Sexp
+  | [] => []
+  | op :: ops =>
+    let r := s.step op
+    .list [statusS r.2, snapshotW r.1] :: serverStepsW r.1 ops
 
 def snapshot (s : Server) : Sexp :=
   let ls := s.curListen.toList.map (fun i => (i, Sexp.list [sym "listen", ofBool false])) ++
@@ -155,7 +173,7 @@ def cliSteps (c : Cli) : List COp → List Sexp
   | op :: ops =>
     let r := c.step op
     .list [exnS r.2, .list (r.1.openIds.map ofNat), ofOpt ofNat r.1.cs, ofBool r.1.connected, ofBool r.1.io.cutoff,
-           ofNat r.1.io.rxbs.length, ofNat r.1.io.txbs.length] :: cliSteps r.1 ops
+           ofNat r.1.io.rxbs.length, ofNat r.1.io.txbs.length, ofBytes r.1.io.kacc, ofBytes r.1.io.txbs] :: cliSteps r.1 ops
 
 def sev? : Sexp → Option Idle.SEv
   | .list [.atom "conn", ca] => (nat? ca).map .conn
@@ -200,6 +218,10 @@ def handle : Sexp → Sexp
     match (nat? code).bind (siteOutcome site) with
     | some o => .list [sym "outcome", outcomeS o]
     | none => sym "bad-request"
+  | .list [.atom "serverw", tls, isOpen, .list ops] =>
+    match bool? tls, bool? isOpen, ops.mapM sop? with
+    | some tls, some o, some ops => .list [sym "ok", .list (serverStepsW (Server.startW tls o) ops)]
+    | _, _, _ => sym "bad-request"
   | .list [.atom "server", tls, .list ops] =>
     match bool? tls, ops.mapM sop? with
     | some tls, some ops => .list [sym "ok", .list (serverSteps (Server.start tls) ops)]
